@@ -1567,7 +1567,12 @@ class SX:
                     return [(st, Unk('slice:' + ':'.join(parts if n.step is not None else parts[:2])))]
             return [(st, Unk('slice:' + ast.unparse(n)))]
         if isinstance(n, (ast.ListComp, ast.GeneratorExp)) and self.eval_comprehensions:
-            return self.comprehension(n, st, frame)
+            got = self.comprehension(n, st, frame)
+            if isinstance(n, ast.GeneratorExp):
+                # a generator is consumed by what reads it: kept as the list of what it will still yield, marked one-shot (the eager
+                # evaluation of its elements is the lazy one as long as they have no effects, which holds for the comparisons met)
+                got = [r if isinstance(r, Outcome) or not isinstance(r[1], Tv) else (r[0], Tv(list(r[1].items), 'generator')) for r in got]
+            return got
         if isinstance(n, (ast.ListComp, ast.GeneratorExp)) and len(n.generators) == 1 and isinstance(n.generators[0].target, ast.Name):
             # a comprehension over a CONCRETE tuple/list (a literal, a local table) is always evaluated
             try:
@@ -1709,7 +1714,10 @@ class SX:
                                     nxt.append((e[0], acc + [e[1]]))
                     cur = nxt
                 for s, acc in cur:
-                    res.append((restore(s), Tv(acc)))
+                    s = restore(s)
+                    if it.kind == 'generator' and isinstance(g.iter, ast.Name) and s.env.get(g.iter.id) is it:
+                        s.env[g.iter.id] = Tv([], 'generator')
+                    res.append((s, Tv(acc)))
                 continue
             if isinstance(it, (Seq, Mv)):
                 if isinstance(it, Seq):
@@ -2181,6 +2189,10 @@ class SX:
                     vals = {k.value: self.const_value(v) for k, v in zip(d.keys, d.values)}
                     if not any(isinstance(v, Unk) for v in vals.values()):
                         return [(st, Dv(vals))]          # a second constant table of the class (string keys, constant values)
+                if isinstance(d, (ast.Tuple, ast.List)) and d.elts:
+                    vals = [self.const_value(v) for v in d.elts]
+                    if not any(isinstance(v, Unk) for v in vals):
+                        return [(st, Tv(vals, 'tuple' if isinstance(d, ast.Tuple) else 'list'))]     # class-level tuple of constants
                 return [(st, Unk(f'{owner}.{attr}'))]
             al = self.ctor_alias(owner, mangled)
             if al is not None:
@@ -2237,6 +2249,10 @@ class SX:
                 return [(st, Fv(f'bound:{attr}', obj))]
             ca_cls, ca = self.model.find_class_attr(cls, attr)
             if ca is not None:
+                if isinstance(ca, (ast.Tuple, ast.List)) and ca.elts:
+                    vals = [self.const_value(v) for v in ca.elts]
+                    if not any(isinstance(v, Unk) for v in vals):
+                        return [(st, Tv(vals, 'tuple' if isinstance(ca, ast.Tuple) else 'list'))]
                 return [(st, Unk(f'{ca_cls}.{attr}'))]
             name = f'{obj.path}.{attr}'
             return [(st, Dyn(Rat.atom(name)))]
@@ -3041,6 +3057,10 @@ class SX:
                     return [(st, Bv(any(ts) if name == 'any' else all(ts)))]
                 return self.any_all(name, ts, st)
             if name == 'next':
+                if args[0].kind == 'generator' and n.args and isinstance(n.args[0], ast.Name) and st.env.get(n.args[0].id) is args[0]:
+                    s2 = st.copy()
+                    s2.env[n.args[0].id] = Tv(list(items[1:]), 'generator')
+                    st = s2
                 if items:
                     return [(st, items[0])]
                 if len(args) == 2:
